@@ -205,6 +205,9 @@ pub enum YieldKind {
     Hook,
     LeafEnd,
     JobEnd,
+    /// Access to a structure shared between workers (e.g. the iterator behind
+    /// `par_bridge`): treated like a job boundary.
+    Shared,
     /// Forced: waiting for a latch that is not set.
     Wait,
     /// Forced: worker has nothing to do.
@@ -423,11 +426,11 @@ impl Inner {
     /// preemption. Decision 0 means "do not preempt again".
     fn draw_gap(&mut self) -> u32 {
         let m = self.cfg.mean_gap.max(1) as u64;
-        let d = self.choose(2 * m + 1);
+        let d = self.choose(16 * m + 1);
         if d == 0 {
             u32::MAX
         } else {
-            (d - 1) as u32
+            ((d - 1) % (2 * m)) as u32
         }
     }
 
@@ -610,6 +613,10 @@ impl Sim {
         self.lock().log.clone()
     }
 
+    pub fn decisions_len(&self) -> usize {
+        self.lock().log.len()
+    }
+
     /// (interleaving hash, split-shape hash, leaves) of every completed root operation.
     pub fn op_hashes(&self) -> Vec<(u64, u64, u64)> {
         self.lock().op_hashes.clone()
@@ -721,7 +728,7 @@ impl Sim {
         let forced = matches!(kind, YieldKind::Wait | YieldKind::Idle);
         let boundary = matches!(
             kind,
-            YieldKind::JobStart | YieldKind::JoinPush | YieldKind::JobEnd | YieldKind::LeafEnd
+            YieldKind::JobStart | YieldKind::JoinPush | YieldKind::JobEnd | YieldKind::LeafEnd | YieldKind::Shared
         );
         g.policy.step += 1;
         let k = g.k();
@@ -1207,6 +1214,14 @@ pub(crate) fn leaf_begin(path: u64, start: u64, len: u64) {
             g.op.leaves += 1;
             g.op.shape = fnv(fnv(fnv(g.op.shape, path), start), len);
             g.op.hash = fnv(fnv(g.op.hash, 0xffff_0000 | me as u64), path);
+        }
+    }
+}
+
+pub(crate) fn shared_access() {
+    if let Some((sim, me)) = current() {
+        if me != DRIVER {
+            sim.yield_point(me, YieldKind::Shared);
         }
     }
 }
